@@ -315,6 +315,10 @@ class Session:
         if op == "dim":
             d = Dimension(tuple(int(x) for x in a[0][1:].split(",")), self.opt(a[1]), self.opt(a[2]))
             return RawLine("ok\td" + ",".join(istr(e) for e in d.exponents))
+        if op == "ddefine":
+            # only asked with a taken name: must raise ValueError before anything is widened
+            Dimension.define(a[0], self.opt(a[1]))
+            raise Unmodelled()
         if op == "dderive":
             key = tuple(int(x) for x in a[0][1:].split(","))
             if key not in Dimension._known:
